@@ -17,7 +17,7 @@ from gmg.interp import Cell
 
 def shapes(tier):
     if tier == "quick":
-        return [(6, 8, 2, False), (6, 8, 3, True), (7, 4, 4, False), (5, 8, 0, True), (5, 4, 5, False), (7, 12, 3, True)]
+        return [(6, 8, 2, False), (6, 8, 3, True), (7, 4, 4, False), (5, 8, 0, True), (5, 4, 5, False), (7, 12, 3, True), (9, 4, 7, False)]
     out = []
     for nr, nt in ((5, 4), (6, 8), (7, 8), (9, 12)):
         for nsc in sorted(set([0, 1, 2, 3, nr - 1, nr])):
@@ -219,9 +219,14 @@ def main(tier):
             ck.ok("R-C03-7", sk)
         # ---- R-C03-4 coarse caches
         if (nr - 1) % 2 == 0 and nt % 2 == 0:
-            cg_grid = symdom.coarse_of(g, min(2, (nr + 1) // 2))
+          # the coarse grid's circle/radial split is chosen independently of the finer grid's (automatic on the coarse grid,
+          # possibly explicit on the finest): every pairing is admissible, in particular a coarse radial part that begins
+          # inside the finer grid's circle part (2 nsc_coarse < nsc_fine) and the reverse
+          cnr = (nr + 1) // 2
+          for nsc_c in sorted(set(min(v, cnr) for v in (2, (nsc + 1) // 2, cnr))):
+            cg_grid = symdom.coarse_of(g, nsc_c)
             for cc, cgf in itertools.product((True, False), (True, False)):
-                key = "%s caches=(%s,%s)" % (sk, cc, cgf)
+                key = "%s coarse nsc=%d caches=(%s,%s)" % (sk, nsc_c, cc, cgf)
                 ck.instance("R-C03-4", key)
                 lvl = symdom.make_level(0, g, S.cache(cc, cgf))
                 coarse = opsdom.coarse_cache(prog, S.dom, lvl, cg_grid)
